@@ -183,7 +183,7 @@ Proof.
       split.
       * split.
         -- intros j h k c Hj Hc. destruct (CO j h k c Hj) as (C1 & _). rewrite <- (C1 Hc). eauto.
-        -- intros h i Hi. destruct (B1 h i Hi) as (? & _). cbn [pv]. now rewrite (to_list_length _ W).
+        -- intros h i Hi. destruct (B1 h i Hi) as (_ & X). exact X.
       * intros j1 j2 h1 h2 k c1 c2 E1 E2 L1 L2.
         destruct (CO _ _ _ _ E1) as (C1 & _). destruct (CO _ _ _ _ E2) as (C2 & _).
         pose proof (B2 _ _ _ _ E1) as G1. pose proof (B2 _ _ _ _ E2) as G2.
